@@ -307,3 +307,15 @@ impl<'a> Choices<'a> {
         &xs[self.below(xs.len())]
     }
 }
+
+/// Strip the repository root (`/repo/`, or `$VERIF_REPO/` when the checks run against a scratch
+/// copy) from a source location so that signatures are stable across checkouts.
+pub fn strip_repo(loc: &str) -> &str {
+    if let Ok(r) = std::env::var("VERIF_REPO") {
+        let r = r.trim_end_matches('/');
+        if let Some(rest) = loc.strip_prefix(r) {
+            return rest.trim_start_matches('/');
+        }
+    }
+    loc.strip_prefix("/repo/").unwrap_or(loc)
+}
